@@ -101,6 +101,8 @@ class CModel(Model):
                     return [R(st, C(args[0][1] == 'NULL'))]
                 if cls == 'archive':
                     return [R(st, C(True))]
+                if cls == self.ci.name:
+                    return [R(st, C(False))]      # the abstract archives are archives proper, not cache objects wrapping one
         if f[0] == 'bound' and f[1] == ARCH:
             m = f[2]
             kind = 'AREAD' if m in A_READ else 'AUPDATE' if m in A_UPDATE else 'ACLEAR' if m in A_CLEAR else \
@@ -673,13 +675,13 @@ def rule_S_RED(ctx, repo):
                          c.methods[name].where)
 
 
-def rule_S_IDENT(ctx, repo):
+def rule_S_IDENT(ctx, repo, parts=('instances',)):
     """S-IDENT: identity with a module-level instance does not survive pickling.  `X = SomeClass()` at module level makes one object per process;
     a class that remembers it in an attribute and later asks `self.attr is X` (or `is not X`) gets a different answer after the instance was pickled
     and restored, because the attribute then holds a *copy* of X - unless X's class pickles by reference (its __reduce__ returns the global's name) or
     the comparison is by type / value.  Checked over every module of the package; today no such comparison exists (positive example: the kill matrix)."""
     n = 0
-    for name in sorted(repo.modules):
+    for name in (sorted(repo.modules) if 'instances' in parts else []):
         m = repo.mod(name)
         insts = {}
         for g, v in m.consts.items():
@@ -720,6 +722,90 @@ def rule_S_IDENT(ctx, repo):
                              'copies that instance by value, so in the restored object the test gives the opposite answer: the clone behaves differently from the '
                              'original (for the cache class: archived() reports the wrong state and switching it parks / restores the wrong archive). Compare by type, or '
                              'give %s a __reduce__ that returns the global name' % (unparse(node)[:80], o.id, cname, cname), '%s:%d' % (m.rel, node.lineno))
+    # an optional marker: X = getattr(module, 'Name', None).  Where the interpreter lacks the attribute X *is* None, and `v is X` / `v is not X` is
+    # true / false for every ordinary None that comes along (a partial that fixes an argument to None) - unless the test also says `X is not None`
+    for name in (sorted(repo.modules) if 'optional' in parts else []):
+        m = repo.mod(name)
+        opt = {}
+        for g, v in m.consts.items():
+            if isinstance(v, ast.Call) and isinstance(v.func, ast.Name) and v.func.id == 'getattr' and len(v.args) == 3 and isinstance(v.args[2], ast.Constant) \
+                    and (v.args[2].value is None or v.args[2].value is False):
+                opt[g] = v
+        if not opt:
+            continue
+        parent = {}
+        for x in ast.walk(m.tree):
+            for c in ast.iter_child_nodes(x):
+                parent[c] = x
+        for node in ast.walk(m.tree):
+            if not (isinstance(node, ast.Compare) and any(isinstance(o, (ast.Is, ast.IsNot, ast.Eq, ast.NotEq)) for o in node.ops)):
+                continue
+            operands = [node.left] + list(node.comparators)
+            hit = [o for o in operands if isinstance(o, ast.Name) and o.id in opt]
+            if not hit:
+                continue
+            others = [o for o in operands if o not in hit]
+            if all(isinstance(o, ast.Constant) and o.value is None for o in others):
+                continue      # the guard itself: X is (not) None
+            gname = hit[0].id
+            guarded = False
+            cur = node
+            while cur in parent and not guarded:
+                p_ = parent[cur]
+                tests = []
+                if isinstance(p_, ast.BoolOp) and isinstance(p_.op, ast.And):
+                    tests = p_.values
+                elif isinstance(p_, (ast.If, ast.IfExp)) and cur is not p_.test:
+                    tests = [p_.test]
+                elif isinstance(p_, ast.comprehension):
+                    tests = list(p_.ifs)
+                for t in tests:
+                    for c in ast.walk(t):
+                        if isinstance(c, ast.Compare) and isinstance(c.left, ast.Name) and c.left.id == gname and len(c.ops) == 1 and isinstance(c.ops[0], ast.IsNot) \
+                                and isinstance(c.comparators[0], ast.Constant) and c.comparators[0].value is None:
+                            guarded = True
+                cur = p_
+            ctx.ob('S-IDENT', '%s:%d comparison with the optional marker %s is guarded by `%s is not None`' % (m.rel, node.lineno, gname, gname), guarded)
+            if not guarded:
+                ctx.fail('S-IDENT', '%s::%s' % (m.rel, gname), 'comparison with a marker that may be None',
+                         '`%s` compares a value with %s = %s: on an interpreter without that attribute the marker is None, and every ordinary None (an argument a partial '
+                         'fixes to None, a default) is taken for the marker - the parameter is then treated as still open, and calls are validated / keyed one slot off'
+                         % (unparse(node)[:60], gname, unparse(opt[gname])[:50]), '%s:%d' % (m.rel, node.lineno))
     ctx.note('S-IDENT: %d identity comparisons inspected in %d modules' % (n, len(repo.modules)))
-    if n < 10:
+    if n < 10 and 'instances' in parts:
         raise AnalysisError('S-IDENT: only %d identity comparisons found in the package (expected many `is None` tests): the scan is not seeing the code' % n)
+
+
+def rule_S_NOSWALLOW(ctx, repo):
+    """S-DUMP / S-LOAD (a failed transfer is reported): cache.dump / load / sync let an exception of the archive's update / read escape (load swallows only
+    KeyError, per key).  The wrappers run `cache.dump(k); del cache[k]` and `cache.dump(); cache.clear()`: they rely on dump *raising* to stop before the
+    entries are discarded from memory.  A dump that turns a failed write into a warning lets the purge go on - the results are then nowhere."""
+    m, ci = cache_class(repo)
+    n = 0
+    for name in ('dump', 'sync', 'load'):
+        fi = ci.methods.get(name)
+        if fi is None:
+            raise AnalysisError('anchor vanished: cache.%s' % name)
+        for t in ast.walk(fi.node):
+            if not isinstance(t, ast.Try):
+                continue
+            touches = any(isinstance(x, ast.Attribute) and x.attr in ('archive', '__archive__') for st_ in t.body for x in ast.walk(st_))
+            if not touches:
+                continue
+            for h in t.handlers:
+                n += 1
+                names = []
+                if h.type is not None:
+                    names = [unparse(x) for x in (h.type.elts if isinstance(h.type, ast.Tuple) else [h.type])]
+                only_keyerror = bool(names) and all(x.split('.')[-1] in ('KeyError', 'LookupError') for x in names)
+                reraises = any(isinstance(x, ast.Raise) for st_ in h.body for x in ast.walk(st_))
+                ok = reraises or (only_keyerror and name in ('load', 'sync'))
+                ctx.ob('S-DUMP' if name != 'load' else 'S-LOAD', 'cache.%s: handler `except %s` does not hide a failed transfer' % (name, ', '.join(names) or '<bare>'), ok)
+                if not ok:
+                    ctx.fail('S-DUMP' if name != 'load' else 'S-LOAD', fi.qual, 'a failed archive transfer is swallowed',
+                             'cache.%s catches `%s` around the archive operation and carries on: the callers (the eviction and purge code of every decorator) discard '
+                             'entries from memory right after dump() returns, so a write that failed loses them - and a later call recomputes what was cached'
+                             % (name, ', '.join(names) or 'everything'), '%s:%d' % (m.rel, h.lineno))
+    ctx.ob('S-DUMP', 'exception handlers around archive transfers examined', True, n=max(n, 1))
+    if n < 1:
+        ctx.note('S-DUMP / S-LOAD (no swallowing): cache.dump / load / sync contain no exception handler around an archive operation; nothing to check')
